@@ -35,6 +35,9 @@ pub enum Error {
 
     #[error("compiler op failed: {0}")]
     CompilerOpFailed(Box<crate::compile::Error>),
+
+    #[error("arithmetic overflow in {0} operation")]
+    ArithmeticOverflow(String),
 }
 
 impl From<crate::compile::Error> for Error {
@@ -120,7 +123,11 @@ impl Arithmetic for Vec<AssetExpr> {
         };
 
         let x = assets_into_canonical(self)?;
-        let total = x + y;
+
+        let total = x
+            .checked_add(y)
+            .ok_or(Error::ArithmeticOverflow("add".to_string()))?;
+
         Ok(Expression::Assets(total.into()))
     }
 
@@ -130,7 +137,10 @@ impl Arithmetic for Vec<AssetExpr> {
     }
 
     fn neg(self) -> Result<Expression, Error> {
-        let negated = std::ops::Neg::neg(assets_into_canonical(self)?);
+        let negated = assets_into_canonical(self)?
+            .checked_neg()
+            .ok_or(Error::ArithmeticOverflow("neg".to_string()))?;
+
         Ok(Expression::Assets(negated.into()))
     }
 }
@@ -138,7 +148,10 @@ impl Arithmetic for Vec<AssetExpr> {
 impl Arithmetic for i128 {
     fn add(self, other: Expression) -> Result<Expression, Error> {
         match other {
-            Expression::Number(y) => Ok(Expression::Number(self + y)),
+            Expression::Number(y) => self
+                .checked_add(y)
+                .map(Expression::Number)
+                .ok_or(Error::ArithmeticOverflow("add".to_string())),
             Expression::None => Ok(Expression::Number(self)),
             _ => Err(Error::InvalidBinaryOp(
                 "add".to_string(),
@@ -154,7 +167,9 @@ impl Arithmetic for i128 {
     }
 
     fn neg(self) -> Result<Expression, Error> {
-        Ok(Expression::Number(-self))
+        self.checked_neg()
+            .map(Expression::Number)
+            .ok_or(Error::ArithmeticOverflow("neg".to_string()))
     }
 }
 
@@ -274,7 +289,8 @@ impl Coerceable for Expression {
                 let all = x
                     .into_iter()
                     .map(|x| x.assets)
-                    .fold(CanonicalAssets::empty(), |acc, x| acc + x);
+                    .try_fold(CanonicalAssets::empty(), |acc, x| acc.checked_add(x))
+                    .ok_or(Error::ArithmeticOverflow("add".to_string()))?;
 
                 Ok(Expression::Assets(all.into()))
             }
